@@ -477,6 +477,21 @@ def _writer_rules(W, C, info):
     C.ok(ok_keys, "R-C10-a", where, "coordinate matrix is built from the entries' keys (row-major numpy.array of a list of tuples)",
          tm.show(keys_list)[:120] if keys_list is not None else "", "coordinates array is %s" % tm.show(coords.arr)[:200], undecided=keys_list is None)
     W.keys_list = keys_list
+    def entry_of_key(x, lid):
+        """x is entries[key i] for the i-th key of keys_list, under loop lid: looked up directly, or taken from a list
+        [entries[k] for k in keys_list] built beforehand (one lookup per key) - an order-preserving comprehension"""
+        it = W.I.loopinfo[lid].get("iter")
+        if x.op == "sub" and x.args[0] == W.p_entries and x.args[1] == T("iter", it, lid) and it == keys_list:
+            return True
+        if x == T("iter", it, lid) and it is not None and it.op == "comp" and it.args[0] == "list" and len(it.args[2]) == 1:
+            l1 = it.args[2][0]
+            li = W.I.loopinfo[l1]
+            e1 = it.args[1]
+            return li.get("iter") == keys_list and not li.get("conds") and e1.op == "sub" and e1.args[0] == W.p_entries and e1.args[1] == T("iter", keys_list, l1)
+        return False
+
+    def reordered(t):
+        return t is not None and tm.contains(t, lambda y: y.op == "call" and (tm.callee_name(y) or "") in ("builtins.sorted", "builtins.reversed", "builtins.set", "builtins.frozenset", ".values", ".items"))
     # lengths = [len(entries[k]) for k in keys_list]
     ok_len = False
     larr = lengths.arr
@@ -484,20 +499,28 @@ def _writer_rules(W, C, info):
         comp = larr.args[1][0]
         elt, lids = comp.args[1], comp.args[2]
         if is_call(elt, "builtins.len") and len(lids) == 1:
-            x = elt.args[1][0]
-            it = W.I.loopinfo[lids[0]]["iter"]
-            if x.op == "sub" and x.args[0] == W.p_entries and x.args[1] == T("iter", it, lids[0]) and it == keys_list:
-                ok_len = True
-    C.ok(ok_len, "R-C10-a", where, "lengths[i] = len(entries[key i]) in key order", "", "lengths array is %s" % tm.show(larr)[:200], undecided=not is_call(larr, "numpy.array"))
+            ok_len = entry_of_key(elt.args[1][0], lids[0])
+    cons_len = "lengths[i] = len(entries[key i]) in key order"
+    if ok_len:
+        C.ok(True, "R-C10-a", where, cons_len, "", "")
+    elif reordered(larr):
+        C.add("R-C10-a", VIOLATED, where, cons_len, "the lengths are taken in another order than the coordinate rows (sorted / reversed / values()): lengths array is %s" % tm.show(larr)[:160],
+              {"example": "two entries with different row counts: each is loaded with the other's length"})
+    else:
+        C.add("R-C10-a", UNDECIDED, where, cons_len, "lengths array is not in a recognised per-key form: %s" % tm.show(larr)[:200])
     # rowids: loop over the same key list, writes entries[key]
     ok_row = False
-    if rowids.ev.loops:
-        lid = rowids.ev.loops[-1]
-        it = W.I.loopinfo[lid].get("iter")
-        a = rowids.arr
-        if a.op == "sub" and a.args[0] == W.p_entries and a.args[1] == T("iter", it, lid) and it == keys_list and len(rowids.ev.loops) == 1:
-            ok_row = True
-    C.ok(ok_row, "R-C10-a", where, "row ids are written per entry, in key order", "", "row-id dump is %s in loops %s" % (tm.show(rowids.arr)[:120], rowids.ev.loops))
+    if rowids.ev.loops and len(rowids.ev.loops) == 1:
+        ok_row = entry_of_key(rowids.arr, rowids.ev.loops[-1])
+    cons_row = "row ids are written per entry, in key order"
+    it_row = W.I.loopinfo[rowids.ev.loops[-1]].get("iter") if rowids.ev.loops else None
+    if ok_row:
+        C.ok(True, "R-C10-a", where, cons_row, "", "")
+    elif reordered(it_row) or reordered(rowids.arr) or not rowids.ev.loops:
+        C.add("R-C10-a", VIOLATED, where, cons_row, "row-id dump is %s in loops %s: not one block per key in the order of the coordinate rows" % (tm.show(rowids.arr)[:120], rowids.ev.loops),
+              {"example": "two entries: the loader slices the row-id block by the lengths in key order and hands each key the other's rows"})
+    else:
+        C.add("R-C10-a", UNDECIDED, where, cons_row, "row-id dump is %s in loops %s: not a recognised per-key form" % (tm.show(rowids.arr)[:120], rowids.ev.loops))
 
     # -- R-C11-e append-only, in order
     C.ok(not W.other_file_ops, "R-C11-e", where, "no seek/truncate/other file operation in save",
